@@ -392,16 +392,27 @@ class Unit(_JsonMixin, DisjointUnionStrategy[G, Tree]):
 
 
 class Factor(_JsonMixin, CartesianProductStrategy[G, Tree]):
-    """alternative with >= 2 symbols = product of its symbols."""
+    """alternative with >= 2 symbols = product of its symbols.  allow_one=True also
+    factors one-symbol alternatives (a one-factor product; only used by the dedicated
+    sub-run for the known finding D10, never in the default alphabets)."""
 
-    def __init__(self, **kw):
+    def __init__(self, allow_one: bool = False, **kw):
+        self.allow_one = allow_one
         super().__init__(**kw)
+
+    def to_jsonable(self) -> dict:
+        d = super().to_jsonable()
+        d["allow_one"] = self.allow_one
+        return d
+
+    def __repr__(self) -> str:
+        return "Factor(allow_one=True)" if self.allow_one else "Factor()"
 
     def decomposition_function(self, c: G):
         if c.kind != "A" or c.is_empty():
             return None
         alt = c.grammar[c.ref[0]][c.ref[1]]
-        if len(alt) < 2:
+        if len(alt) < (1 if self.allow_one else 2):
             return None
         return tuple(sym_class(c, s) for s in alt)
 
@@ -487,7 +498,13 @@ def g_pack(name: str = "g") -> StrategyPack:
     return StrategyPack(
         initial_strats=[],
         inferral_strats=[],
-        expansion_strats=[[Unfold(), Factor(), Unit()]] if "split" not in feats else [[Unfold()], [Factor(), Unit()]],
+        expansion_strats=(
+            [[Unfold(), Factor(allow_one=True)]]
+            if "onefactor" in feats
+            else [[Unfold(), Factor(), Unit()]]
+            if "split" not in feats
+            else [[Unfold()], [Factor(), Unit()]]
+        ),
         ver_strats=[GAtom()],
         name=name,
         iterative="iter" in feats,
@@ -636,9 +653,7 @@ def gate_rule(rule, N: int) -> Optional[str]:
     elif isinstance(strat, CartesianProductStrategy):
         if c.is_empty() or any(ch.is_empty() for ch in children):
             return f"product with an empty class {c!r}"
-        mins = [ch.minimum_size_of_object() for ch in children]
-        if tuple(strat.shifts(c, children)) != tuple(sum(mins) - m for m in mins):
-            return "product shifts"
+        # (shifts() is library code: judged by C10, not by the gate)
         seen_t = set()
         for o in parent_objs:
             img = tuple(rule.forward_map(o))
